@@ -34,3 +34,12 @@ Extract/Driver.vos Extract/Driver.vok Extract/Driver.required_vos: Extract/Drive
 Extract/Extract.vo Extract/Extract.glob Extract/Extract.v.beautified Extract/Extract.required_vo: Extract/Extract.v Base/Sexp.vo Extract/Driver.vo
 Extract/Extract.vio: Extract/Extract.v Base/Sexp.vio Extract/Driver.vio
 Extract/Extract.vos Extract/Extract.vok Extract/Extract.required_vos: Extract/Extract.v Base/Sexp.vos Extract/Driver.vos
+Proofs/FMFacts.vo Proofs/FMFacts.glob Proofs/FMFacts.v.beautified Proofs/FMFacts.required_vo: Proofs/FMFacts.v Base/Result.vo Base/Str.vo Model/Ast.vo Model/FM.vo Model/Ctc.vo Model/Queries.vo
+Proofs/FMFacts.vio: Proofs/FMFacts.v Base/Result.vio Base/Str.vio Model/Ast.vio Model/FM.vio Model/Ctc.vio Model/Queries.vio
+Proofs/FMFacts.vos Proofs/FMFacts.vok Proofs/FMFacts.required_vos: Proofs/FMFacts.v Base/Result.vos Base/Str.vos Model/Ast.vos Model/FM.vos Model/Ctc.vos Model/Queries.vos
+Proofs/QueriesFacts.vo Proofs/QueriesFacts.glob Proofs/QueriesFacts.v.beautified Proofs/QueriesFacts.required_vo: Proofs/QueriesFacts.v Base/Result.vo Base/Str.vo Model/Ast.vo Model/FM.vo Model/Ctc.vo Model/Queries.vo Proofs/FMFacts.vo
+Proofs/QueriesFacts.vio: Proofs/QueriesFacts.v Base/Result.vio Base/Str.vio Model/Ast.vio Model/FM.vio Model/Ctc.vio Model/Queries.vio Proofs/FMFacts.vio
+Proofs/QueriesFacts.vos Proofs/QueriesFacts.vok Proofs/QueriesFacts.required_vos: Proofs/QueriesFacts.v Base/Result.vos Base/Str.vos Model/Ast.vos Model/FM.vos Model/Ctc.vos Model/Queries.vos Proofs/FMFacts.vos
+Props/C03.vo Props/C03.glob Props/C03.v.beautified Props/C03.required_vo: Props/C03.v Model/FM.vo Model/Queries.vo Proofs/FMFacts.vo Proofs/QueriesFacts.vo
+Props/C03.vio: Props/C03.v Model/FM.vio Model/Queries.vio Proofs/FMFacts.vio Proofs/QueriesFacts.vio
+Props/C03.vos Props/C03.vok Props/C03.required_vos: Props/C03.v Model/FM.vos Model/Queries.vos Proofs/FMFacts.vos Proofs/QueriesFacts.vos
